@@ -185,6 +185,18 @@ def api_answer(op, env):
             # the same, the class being decorated by @beartype (beartype notices redefinitions of such classes and clears its caches)
             env['ns'][op[1]] = beartype(type(op[1], (), {'tag': op[2], '__module__': '__c14__'}))
             return None
+        if kind == 'fwd_hint':
+            # door checks against hints with a *string* child naming a class of the calling module, followed by another child:
+            # such hints mean what the name means now, whatever it meant when an equal hint was checked before
+            ns = env['ns']
+            if op[1] not in ns:
+                return 'undefined'
+            n = op[1]
+            src = ('from beartype.door import is_bearable\n'
+                   '__R = [bool(is_bearable({%s(): 1}, dict["%s", int])), bool(is_bearable((%s(), 1), tuple["%s", int])),\n'
+                   '       bool(is_bearable(([%s()], [1]), tuple[list["%s"], list[int]])), bool(is_bearable({1: 1}, dict["%s", int]))]\n' % ((n,) * 7))
+            exec(src, ns)
+            return ns['__R']
         if kind == 'fwd':
             # a decorated callable annotated by the *name* of a class resolved in env['ns']
             ns = env['ns']
